@@ -91,6 +91,7 @@ func execute(t *testing.T, sc *Scenario, tier string, gen, sched, fault *simrt.T
 	if sc.Tick {
 		cfg.Tick = fault.Draw(2) == 1
 	}
+	simrt.ReinitAll()
 	res := simrt.Run(t, cfg, func() { sc.Run(rc) })
 	out := &RunOut{Steps: res.Steps, SimNS: int64(res.SimTime), Hash: fmt.Sprintf("%016x", res.Hash), FP: fmt.Sprintf("%016x", res.SchedFP),
 		Faults: res.Faults, Probes: res.Probes, Aborted: res.Aborted, Policy: res.Policy, Tasks: res.NumTasks,
